@@ -34,7 +34,7 @@ func (c Case) String() string {
 	if c.Kind == "close2" {
 		return "close2"
 	}
-	return fmt.Sprintf("random:seed=%d,w=%d,n=%d,close=%v", c.Seed, c.Workers, c.Ops, c.Close)
+	return fmt.Sprintf("random:seed=%d,w=%d,n=%d,close=%v,reenter=%v", c.Seed, c.Workers, c.Ops, c.Close, c.Reenter)
 }
 
 // Points at which a goroutine is parked. Except for the two "empty" points the queue holds
@@ -78,8 +78,7 @@ func (w *World) doOp(op string) {
 	case "deqAbsent":
 		w.p.Dequeue(9)
 	case "close":
-		w.p.Close()
-		w.add(Ev{Kind: "closeret"})
+		w.closeAndLog()
 	case "advHead":
 		w.advance(10 * ms)
 	case "advAll":
@@ -88,6 +87,18 @@ func (w *World) doOp(op string) {
 		w.advance(1 * ms)
 	default:
 		panic("unknown op " + op)
+	}
+}
+
+// closeAndLog calls Close and logs its return: "closeret" for the call that performed the CAS,
+// "closeret2" for a later call.
+func (w *World) closeAndLog() {
+	later := w.closeCalled.Load()
+	w.p.Close()
+	if later {
+		w.add(Ev{Kind: "closeret2"})
+	} else {
+		w.add(Ev{Kind: "closeret"})
 	}
 }
 
@@ -339,6 +350,9 @@ func genOps(r *lib.Rand, n int, withClose bool) []rop {
 func (w *World) runRandom(c Case) {
 	r := lib.NewRand(c.Seed)
 	w.yield = r.Fork()
+	if c.Reenter {
+		w.reenter = r.Fork()
+	}
 	w.useGate = true
 	lists := make([][]rop, c.Workers)
 	for i := range lists {
@@ -368,8 +382,7 @@ func (w *World) runRandom(c Case) {
 				case "yield":
 					runtime.Gosched()
 				case "close":
-					w.p.Close()
-					w.add(Ev{Kind: "closeret"})
+					w.closeAndLog()
 				}
 			}
 		}(lists[i])
@@ -387,6 +400,7 @@ func (w *World) runRandom(c Case) {
 func (w *World) finish() {
 	w.yieldMu.Lock()
 	w.yield = nil
+	w.reenter = nil
 	w.yieldMu.Unlock()
 	if w.settleOr("after-ops") {
 		w.quiet()
